@@ -319,6 +319,9 @@ class SE2(SO2):
                     # SE2(x, y, theta)
                     self.data = [tr.trot2(theta, t=[x, y], unit=unit)]
 
+            else:
+                raise ValueError('bad arguments to constructor')
+
         else:
             raise ValueError('bad arguments to constructor')
 
